@@ -122,3 +122,37 @@ def classify(defn, env, got_on, got_off, ref_value, ref_scale, tol=1e-9):
     if worst > gen.EXP_ARG_LIMIT:
         return "known", f"CSE on returned {got_on!r} (exp argument {worst:.4g}), CSE off {got_off!r} = expected"
     return "violation", f"CSE on returned {got_on!r} without an overflowing exp term (max exp argument {worst:.4g})"
+
+
+# ---------------------------------------------------------------------------------------------------------
+# Second known finding: |x| of a symbol that carries no 'real' assumption.
+#
+# ui.Symbol is sympy.Symbol: complex unless told otherwise.  sympy differentiates Abs(v) for such a symbol
+# to (re(v)*Derivative(re(v), v) + im(v)*Derivative(im(v), v))*sign(v)/v.  With CSE on, cse() names re(v)
+# as a temporary *inside* the Derivative, Derivative(_t0, v) simplifies to 0 and the Jacobian entry silently
+# loses the whole d|v|/dv term; with CSE off the unevaluated Derivative cannot be printed and compile_ekf
+# raises.  (With Symbol("v", real=True) everything is right - that is what the random programs use.)
+
+KEY_ABS = "jacobian:abs-of-unassumed-symbol"
+WHAT_ABS = ("Abs() of a model symbol created without real=True (the default of ui.Symbol): with "
+            "common_subexpression_elimination=True the Jacobians silently lose the d|v|/dv term (cse() rewrites "
+            "Derivative(re(v), v) to Derivative(_t0, v) = 0); with CSE off compile_ekf raises on the unevaluated "
+            "Derivative; witness: v' = v - 0.3*dt*v*|v|, reading |v|, at v = -2")
+
+
+def abs_witness_defn():
+    S = E.S
+    return {
+        "dt": "dt", "state": ["v", "x"], "control": [], "calibration": [],
+        "model": {"v": ["sub", S("v"), ["mul", S("dt"), ["mul", E.F(0.3), ["mul", S("v"), ["abs", S("v")]]]]],
+                  "x": ["add", S("x"), ["mul", S("dt"), S("v")]]},
+        "model_as_text": [], "containers": {"state": "set", "control": "set", "calibration": "set"},
+        "calibration_map": {}, "process_noise": {},
+        "sensors": {"pitot": {"speed": ["abs", S("v")], "range": ["hyp", S("x")]}},
+        "sensor_noises": {"pitot": {"speed": 0.5, "range": 0.25}}, "reading_keys": {"pitot": "str"},
+        "n_shared": 0, "family": "abs_unassumed_witness",
+    }
+
+
+def abs_witness_points():
+    return [{"dt": 0.1, "v": -2.0, "x": 5.0}, {"dt": 0.05, "v": 1.5, "x": -3.0}, {"dt": 0.1, "v": -0.25, "x": 0.5}]
